@@ -158,6 +158,8 @@ class E1:
             name = p.rsplit("::", 1)[-1]
             if p in AB_CALLS or name in ("len", "capacity") or name in SMALL_CALLS:
                 return False
+            if name == "position" and "Cursor" in p:
+                return True         # io::Cursor::set_position accepts any u64: the position is the caller's to choose
             if name == "min" and len(e[2]) == 2:
                 return self.tainted(e[2][0], b, depth + 1) and self.tainted(e[2][1], b, depth + 1)
             return any(self.tainted(a, b, depth + 1) for a in e[2])
